@@ -95,6 +95,7 @@ static void run_C14(const Args &a, long cs) {
 		double ratio = (double)(errabs / (ldexpl(1, -24) * M));
 		{ int on = (int)o + n; double &w = g_worst[on]; if (ratio > w) w = ratio; }
 		count("points-checked"); uint64_t h = s.hash(); for (double v : x) h = hash_d(h, v); distinct(hash_mix(h, n));
+		if (a.verbose) fprintf(stderr, "C14 x=%.6g lib=%.9g integral=%.9Lg M=%.3Lg err/cmax=%.3Lg ratio=%.3g\n", x[dim], lib, S, M, fabsl((LD)lib - S) / cmaxo, ratio);
 		count(ratio < 1 ? "errratio:<1" : ratio < 10 ? "errratio:<10" : ratio < 40 ? "errratio:<40" : ratio < K_CONV ? "errratio:<400" : "errratio:>=400");
 		std::string cls = "order" + std::to_string(o) + (o % 2 == 0 ? "(even)" : "(odd)");
 		bool lowstratum = (int)o + n <= 6;
@@ -103,9 +104,12 @@ static void run_C14(const Args &a, long cs) {
 			std::string dj = "{\"lib\":" + jnum(lib) + ",\"integral\":" + jnum((double)S) + ",\"M\":" + jnum((double)M) + ",\"ratio_to_2^-24M\":" + jnum(ratio) + ",\"x\":" + jarrd(x) + ",\"order_class\":" + jstr(cls) + ",\"order+kernelknots\":" + std::to_string((int)o + n) + ",\"case\":" + cj + "}";
 			if (neg) viol("C14:convolve:value-is-the-negative-of-the-convolution-integral", dj);
 			else if (lowstratum) viol(std::string("C14:convolve:value-differs-from-convolution-integral:") + (o == 0 ? "order0" : "order+kernelknots<=6"), dj);
-			else if (ratio <= K_GROSS) viol("C14:convolve:accuracy-below-single-precision:order+kernelknots>=7", dj); // numerically unstable divided differences (recorded finding)
+			// gross = beyond 12% of the larger of the local magnitude and max|c| (the convolution with a unit-area kernel is bounded by max|c|): the recorded
+			// instability is an absolute error on the scale of the coefficients, so near the ends of the range, where the local magnitude tends to zero, it is
+			// unbounded relative to the local magnitude while staying a small fraction of max|c| (seen: 2^-12 max|c| for order 5 with 5 close kernel knots)
+			else if ((double)(errabs / (ldexpl(1, -24) * std::max(M, cmaxo))) <= K_GROSS) viol("C14:convolve:accuracy-below-single-precision:order+kernelknots>=7", dj); // numerically unstable divided differences (recorded finding)
 			else viol("C14:convolve:value-differs-from-convolution-integral:gross-error:order+kernelknots>=7", dj);
-			break;
+			if (!a.verbose) break;
 		}
 		if (p == 0 && cs % 10 == 0) sample("{\"order\":" + std::to_string(o) + ",\"kernel_knots\":" + std::to_string(n) + ",\"ndim\":" + std::to_string(nd) + ",\"dim\":" + std::to_string(dim) + ",\"x\":" + jarrd(x) + ",\"lib\":" + jnum(lib) + ",\"integral\":" + jnum((double)S) + ",\"ratio\":" + jnum(ratio) + "}");
 	}
